@@ -705,3 +705,20 @@ def fact_is_absent(rels, pred, variant_index=1):
             if (r[0] == "Eq" and r[2][1] == 1 - variant_index) or (r[0] == "Ne" and r[2][1] == variant_index):
                 return True
     return False
+
+
+def relational_deep(W, fact, depth=0):
+    """flow.relational, additionally looking through crate-local boolean helper functions: a branch on `helper(a, b)` is
+    interpreted through the helper's return term with its parameters bound (so `fn same(a,b)->bool {a == b}` is an equality)."""
+    import flow
+    out = []
+    for r in flow.relational(fact):
+        if r[0] in ("True", "False") and is_call(r[1]) and r[1][1] in W.prog.fns and depth < 3:
+            callee = r[1][1]
+            ret = W.bind_params(W.ev(callee).ret(), callee, list(r[1][2]))
+            inner = relational_deep(W, ("eq", ret, r[0] == "True"), depth + 1)
+            if inner and not all(x[0] in ("True", "False") for x in inner):
+                out.extend(inner)
+                continue
+        out.append(r)
+    return out
